@@ -267,6 +267,10 @@ type vshTr struct {
 	StreamID  string
 	TrackID   string
 	Enc       []vshEnc
+	// the harness's own model of the sender's track after ReplaceTrack calls that returned nil
+	// (ModelSet: such a call was made on this sender; ModelMsid "" = replaced by nil)
+	ModelSet  bool
+	ModelMsid string
 }
 
 // vshDesc is one description returned by CreateOffer/CreateAnswer (or the error it returned).
@@ -349,6 +353,7 @@ type vshSideState struct {
 	dcCreated  int
 	remoteText string // last remote description applied
 	trackSeq   int
+	replaced   map[*RTPSender]string // sender -> "<stream> <track>" after a successful ReplaceTrack ("" = nil)
 }
 
 func (s *vshSideState) snapshot() []vshTr {
@@ -363,6 +368,9 @@ func (s *vshSideState) snapshot() []vshTr {
 			}
 			for _, e := range snd.GetParameters().Encodings {
 				v.Enc = append(v.Enc, vshEnc{e.RID, uint32(e.SSRC), uint32(e.RTX.SSRC), uint32(e.FEC.SSRC)})
+			}
+			if m, ok := s.replaced[snd]; ok {
+				v.ModelSet, v.ModelMsid = true, m
 			}
 		}
 		out = append(out, v)
@@ -746,15 +754,28 @@ func (rp *vshReplayer) apply(op vshOp) string { //nolint:gocognit,cyclop
 		if op.Idx >= len(trs) || trs[op.Idx].Sender() == nil {
 			return "na"
 		}
+		if s.replaced == nil {
+			s.replaced = map[*RTPSender]string{}
+		}
+		snd := trs[op.Idx].Sender()
 		if op.N == 0 {
-			return done(trs[op.Idx].Sender().ReplaceTrack(nil))
+			err := snd.ReplaceTrack(nil)
+			if err == nil {
+				s.replaced[snd] = ""
+			}
+
+			return done(err)
 		}
 		tr, err := s.newTrack(trs[op.Idx].Kind().String(), "")
 		if err != nil {
 			vkit.Fatalf(rp.tb, "track: %v", err)
 		}
+		err = snd.ReplaceTrack(tr)
+		if err == nil {
+			s.replaced[snd] = tr.StreamID() + " " + tr.ID()
+		}
 
-		return done(trs[op.Idx].Sender().ReplaceTrack(tr))
+		return done(err)
 	case "stop":
 		if op.Idx >= len(trs) {
 			return "na"
